@@ -36,6 +36,7 @@ Section Breaker.
      win (transition target now b) = match target with Open => win b | _ => hard_reset now (win b) end /\
      openUntil (transition target now b) = match target with Open => now + openTimeout | _ => openUntil b end).
   Proof.
+    clear Hbn Hnum.
     unfold Model.transition. destruct (bstate_eqb (st b) target) eqn:He.
     - left. by apply bstate_eqb_eq in He.
     - right. assert (st b <> target) by (intros Heq; apply bstate_eqb_eq in Heq; congruence).
@@ -48,6 +49,7 @@ Section Breaker.
     ((snd (sem_try cap b) = (true, true) /\ (sem b < cap)%nat /\ sem (fst (sem_try cap b)) = S (sem b)) \/
      (snd (sem_try cap b) = (false, false) /\ (cap <= sem b)%nat /\ fst (sem_try cap b) = b)).
   Proof.
+    clear Hbn Hnum.
     unfold sem_try. destruct (Nat.ltb_spec (sem b) cap); simpl; repeat split; auto.
   Qed.
 
@@ -73,6 +75,7 @@ Section Breaker.
       else if reached f (s + f) then Open
       else match st b with HalfOpen => Closed | s' => s' end.
   Proof.
+    clear Hbn Hnum.
     unfold Model.record. destruct (add bn num now ok (win b)) as [w [s f]] eqn:Ha. simpl.
     destruct (s + f <? minReq); [done|].
     destruct (reached f (s + f)).
@@ -82,6 +85,7 @@ Section Breaker.
 
   Theorem step_state now e b : st (fst (step now e b)) = next_state now e b.
   Proof.
+    clear Hbn Hnum.
     destruct e as [|o tok|]; simpl.
     - unfold Model.try_acquire. destruct (st b) eqn:Hs; simpl; [by rewrite Hs| |].
       + destruct (now <? openUntil b); simpl; [by rewrite Hs|].
@@ -92,7 +96,7 @@ Section Breaker.
         destruct (sem_try cap b) as [b' [al ac]]. simpl in *. congruence.
     - assert (Hrel : forall x, st (if tok then release x else x) = st x) by (intros; by destruct tok).
       rewrite Hrel. destruct o; [by rewrite record_st|by rewrite record_st|done].
-    - destruct (snapshot bn num now (win b)) as [w [s f]]. done.
+    - unfold snapshot. simpl. destruct (totals (advance bn num now (win b))). done.
   Qed.
 
   (* ---------------------------------------------------------------- the window under the breaker *)
@@ -188,7 +192,8 @@ Section Breaker.
       + apply Hrel. unfold resets. rewrite bstate_eqb_refl. simpl. split; [done|lia].
     - (* Metrics *)
       simpl. destruct (Iw_advance bn num Hbn Hnum now (win b) g HI ltac:(lia)) as (HI' & Hcov & _).
-      unfold snapshot. simpl. unfold resets. simpl. rewrite bstate_eqb_refl. simpl.
+      unfold snapshot. simpl. destruct (totals (advance bn num now (win b))) as [s f]. simpl.
+      unfold resets. simpl. rewrite bstate_eqb_refl. simpl.
       split; simpl; [done|lia].
   Qed.
 
@@ -234,10 +239,26 @@ Section Breaker.
           destruct (transition_cases Closed now x) as [[_ ->]|(_ & _ & _ & -> & _)] end; simpl; [done|lia]. }
       destruct o; [apply Hrec|apply Hrec|done].
     - simpl. destruct (Iw_advance bn num Hbn Hnum now (win b) g HI ltac:(lia)) as (_ & Hcov & _).
-      unfold snapshot. simpl. done.
+      unfold snapshot. simpl. destruct (totals (advance bn num now (win b))). done.
   Qed.
 
   (* ---------------------------------------------------------------- Closed -> Open exactly when *)
+  Lemma add_totals now ok w : snd (add bn num now ok w) = totals (fst (add bn num now ok w)).
+  Proof. done. Qed.
+
+  Lemma win_release (tok : bool) x : win (if tok then release x else x) = win x.
+  Proof. by destruct tok. Qed.
+
+  Lemma record_win_closed now ok b :
+    st b = Closed -> win (record now ok b) = fst (add bn num now ok (win b)).
+  Proof.
+    intros Hs. unfold Model.record. destruct (add bn num now ok (win b)) as [w [s f]]. simpl. cbv zeta.
+    destruct (s + f <? minReq); [done|]. destruct (reached f (s + f)).
+    - match goal with |- context [transition Open now ?x] =>
+        destruct (transition_cases Open now x) as [[_ ->]|(_ & _ & _ & -> & _)] end; done.
+    - simpl. rewrite Hs. done.
+  Qed.
+
   Theorem opens_exactly_when t0 h now o tok :
     mono t0 h -> last_time t0 h <= now ->
     let b := run h (new_breaker num t0) in
@@ -256,30 +277,20 @@ Section Breaker.
     pose proof (step_J now (EDone o tok) b g _ HJ Hle) as [HI' _]. fold b' g' in HI'.
     pose proof (Iw_totals bn num Hbn Hnum _ _ HI') as Htot. fold c s f in Htot.
     pose proof (step_state now (EDone o tok) b) as Hst. fold b' in Hst.
+    assert (Hgen : forall ok, win b' = fst (add bn num now ok (win b)) ->
+              next_state now (EDone (if ok then OK else Fail) tok) b =
+              (if s + f <? minReq then Closed else if reached f (s + f) then Open else Closed)).
+    { intros ok Hw. unfold next_state.
+      assert (Hsnd : snd (add bn num now (match (if ok then OK else Fail) with OK => true | _ => false end) (win b)) = (s, f)).
+      { replace (match (if ok then OK else Fail) with OK => true | _ => false end) with ok by (by destruct ok).
+        rewrite add_totals, <-Hw. done. }
+      destruct ok; simpl in *; rewrite Hsnd, Hs; done. }
     destruct o.
-    - simpl in Hst. rewrite Hs in Hst.
-      assert (Hw : totals (win b') = snd (add bn num now true (win b))).
-      { subst b'. simpl. assert (Hrel : forall x, win (if tok then release x else x) = win x) by (intros; by destruct tok).
-        rewrite Hrel. unfold Model.record. destruct (add bn num now true (win b)) as [w [s0 f0]] eqn:Ha. simpl.
-        assert (Hadd : totals w = (s0, f0)) by (unfold add in Ha; inversion Ha; done).
-        destruct (s0 + f0 <? minReq); [done|]. destruct (reached f0 (s0 + f0)).
-        - match goal with |- context [transition Open now ?x] =>
-            destruct (transition_cases Open now x) as [[_ ->]|(_ & _ & _ & -> & _)] end; done.
-        - simpl. rewrite Hs. done. }
-      rewrite Htot in Hw. rewrite <-Hw in Hst. rewrite Hst.
-      destruct (s + f <? minReq) eqn:E1; [split; [split; [done|lia]|by right]|].
+    - rewrite (Hgen true) in Hst by (subst b'; simpl; by rewrite win_release, record_win_closed).
+      rewrite Hst. destruct (s + f <? minReq) eqn:E1; [split; [split; [done|lia]|by right]|].
       destruct (reached f (s + f)) eqn:E2; (split; [split; [intros; repeat split; try done; lia|intros (_ & _ & ?); done]|auto]).
-    - simpl in Hst. rewrite Hs in Hst.
-      assert (Hw : totals (win b') = snd (add bn num now false (win b))).
-      { subst b'. simpl. assert (Hrel : forall x, win (if tok then release x else x) = win x) by (intros; by destruct tok).
-        rewrite Hrel. unfold Model.record. destruct (add bn num now false (win b)) as [w [s0 f0]] eqn:Ha. simpl.
-        assert (Hadd : totals w = (s0, f0)) by (unfold add in Ha; inversion Ha; done).
-        destruct (s0 + f0 <? minReq); [done|]. destruct (reached f0 (s0 + f0)).
-        - match goal with |- context [transition Open now ?x] =>
-            destruct (transition_cases Open now x) as [[_ ->]|(_ & _ & _ & -> & _)] end; done.
-        - simpl. rewrite Hs. done. }
-      rewrite Htot in Hw. rewrite <-Hw in Hst. rewrite Hst.
-      destruct (s + f <? minReq) eqn:E1; [split; [split; [done|lia]|by right]|].
+    - rewrite (Hgen false) in Hst by (subst b'; simpl; by rewrite win_release, record_win_closed).
+      rewrite Hst. destruct (s + f <? minReq) eqn:E1; [split; [split; [done|lia]|by right]|].
       destruct (reached f (s + f)) eqn:E2; (split; [split; [intros; repeat split; try done; lia|intros (_ & _ & ?); done]|auto]).
     - simpl in Hst. rewrite Hst, Hs. split; [split; [done|intros [? _]; done]|by right].
   Qed.
@@ -307,7 +318,8 @@ Section Breaker.
     assert (Hadd : snd (add bn num now ok (win b)) = (s, f)) by (rewrite <-Htot; done).
     pose proof (step_state now (EDone o tok) b) as Hst. fold b' in Hst.
     assert (Hst' : st b' = (if s + f <? minReq then HalfOpen else if reached f (s + f) then Open else Closed)).
-    { rewrite Hst. destruct o; try done; simpl; fold ok; rewrite Hadd, Hs; done. }
+    { rewrite Hst. unfold next_state. clear Hst HI1 Htot.
+      destruct o; [| |done]; subst ok; cbv beta iota in Hadd |- *; rewrite Hadd, Hs; done. }
     split; [done|]. intros Hc.
     assert (Hrel : forall x, win (if tok then release x else x) = win x) by (intros; by destruct tok).
     assert (Hrec : st (record now ok b) = Closed -> totals (win (record now ok b)) = (0, 0)).
@@ -323,7 +335,9 @@ Section Breaker.
       assert (Hz : forall l : list bucket, sumS (map (fun _ => (0, 0, now)) l) = 0 /\ sumF (map (fun _ => (0, 0, now)) l) = 0).
       { induction l as [|x l [IH1 IH2]]; simpl; [done|]. unfold bS, bF. simpl. lia. }
       destruct (Hz (buf w)) as [-> ->]. done. }
-    subst b'. simpl in *. rewrite Hrel. destruct o; try done; apply Hrec; by rewrite Hrel in Hc.
+    assert (HrelS : forall x, st (if tok then release x else x) = st x) by (intros; by destruct tok).
+    subst b'. simpl in Hc |- *. rewrite Hrel. rewrite HrelS in Hc. subst ok.
+    destruct o; try done; apply Hrec; done.
   Qed.
 
   (* ---------------------------------------------------------------- while Open, before openUntil *)
@@ -341,6 +355,7 @@ Section Breaker.
     st b = Open -> all_before (openUntil b) h ->
     st (run h b) = Open /\ openUntil (run h b) = openUntil b /\ no_admission (trace h b).
   Proof.
+    clear Hbn Hnum.
     induction h as [|[t e] h IH]; intros b Hs Hb; simpl; [done|].
     destruct Hb as [Ht Hb].
     assert (Hstep : st (fst (step t e b)) = Open /\ openUntil (fst (step t e b)) = openUntil b /\
@@ -357,7 +372,7 @@ Section Breaker.
               destruct (transition_cases Open t x) as [[_ ->]|(Hne & _)] end; [done|]. simpl in Hne. congruence.
           - simpl. rewrite Hs. done. }
         destruct o; [destruct (Hrec true)|destruct (Hrec false)|]; done.
-      - destruct (snapshot bn num t (win b)) as [w [s f]]. done. }
+      - unfold snapshot. simpl. destruct (totals (advance bn num t (win b))). done. }
     destruct Hstep as (H1 & H2 & H3).
     destruct (step t e b) as [b' o] eqn:Hst. simpl in *.
     destruct (IH b' H1) as (I1 & I2 & I3); [by rewrite H2|].
@@ -366,27 +381,54 @@ Section Breaker.
   Qed.
 
   (* ---------------------------------------------------------------- the half-open semaphore *)
+  Lemma step_start now b :
+    step now EStart b = (fst (try_acquire now b), OAcq (fst (snd (try_acquire now b))) (snd (snd (try_acquire now b)))).
+  Proof.
+    clear Hbn Hnum. simpl. destruct (try_acquire now b) as [b' [al ac]]. done. Qed.
+
+  Lemma try_acquire_sem now b :
+    sem (fst (try_acquire now b)) = (if snd (snd (try_acquire now b)) then S (sem b) else sem b) /\
+    (snd (snd (try_acquire now b)) = true -> (sem b < cap)%nat).
+  Proof.
+    clear Hbn Hnum.
+    unfold Model.try_acquire. destruct (st b).
+    - done.
+    - destruct (now <? openUntil b); [done|].
+      destruct (transition_cases HalfOpen now b) as [[_ ->]|(_ & _ & Hsem & _)].
+      + destruct (sem_try_facts b) as (_ & _ & _ & [(-> & ? & ->)|(-> & _ & ->)]); done.
+      + destruct (sem_try_facts (transition HalfOpen now b)) as (_ & _ & _ & [(-> & ? & ->)|(-> & _ & ->)]);
+          simpl; rewrite <-?Hsem; split; try done; lia.
+    - destruct (sem_try_facts b) as (_ & _ & _ & [(-> & ? & ->)|(-> & _ & ->)]); done.
+  Qed.
+
+  Lemma record_sem now ok b : sem (record now ok b) = sem b.
+  Proof.
+    clear Hbn Hnum.
+    unfold Model.record. destruct (add bn num now ok (win b)) as [w [s f]]. simpl. cbv zeta.
+    destruct (s + f <? minReq); [done|]. destruct (reached f (s + f)).
+    - match goal with |- context [transition Open now ?x] =>
+        destruct (transition_cases Open now x) as [[_ ->]|(_ & _ & -> & _)] end; done.
+    - simpl. destruct (st b); done.
+  Qed.
+
+  Lemma step_done_sem now o (tok : bool) b :
+    sem (fst (step now (EDone o tok) b)) = if tok then Nat.pred (sem b) else sem b.
+  Proof.
+    clear Hbn Hnum. simpl. destruct tok, o; simpl; rewrite ?record_sem; done. Qed.
+
+  Lemma step_metrics_sem now b : sem (fst (step now EMetrics b)) = sem b.
+  Proof.
+    clear Hbn Hnum. simpl. unfold snapshot. simpl. destruct (totals (advance bn num now (win b))). done. Qed.
+
   Theorem sem_bounded : forall h b, (sem b <= cap)%nat -> (sem (run h b) <= cap)%nat.
   Proof.
+    clear Hbn Hnum.
     induction h as [|[t e] h IH]; intros b Hb; simpl; [done|]. apply IH.
-    destruct e as [|o tok|]; simpl.
-    - unfold Model.try_acquire. destruct (st b).
-      + done.
-      + destruct (t <? openUntil b); [done|].
-        destruct (transition_cases HalfOpen t b) as [[_ ->]|(_ & _ & Hsem & _)].
-        * destruct (sem_try_facts b) as (_ & _ & _ & [(_ & ? & ->)|(_ & _ & ->)]); lia.
-        * destruct (sem_try_facts (transition HalfOpen t b)) as (_ & _ & _ & [(_ & ? & ->)|(_ & _ & ->)]); lia.
-      + destruct (sem_try_facts b) as (_ & _ & _ & [(_ & ? & ->)|(_ & _ & ->)]); lia.
-    - assert (Hrec : forall ok, sem (record t ok b) = sem b).
-      { intros ok. unfold Model.record. destruct (add bn num t ok (win b)) as [w [s f]]. simpl. cbv zeta.
-        destruct (s + f <? minReq); [done|]. destruct (reached f (s + f)).
-        - match goal with |- context [transition Open t ?x] =>
-            destruct (transition_cases Open t x) as [[_ ->]|(_ & _ & -> & _)] end; done.
-        - simpl. destruct (st b); try done.
-          match goal with |- context [transition Closed t ?x] =>
-            destruct (transition_cases Closed t x) as [[_ ->]|(_ & _ & -> & _)] end; done. }
-      destruct tok; destruct o; simpl; rewrite ?Hrec; lia.
-    - destruct (snapshot bn num t (win b)) as [w [s f]]. done.
+    destruct e as [|o tok|].
+    - rewrite step_start. simpl. destruct (try_acquire_sem t b) as [-> Hlt].
+      destruct (snd (snd (try_acquire t b))); [specialize (Hlt eq_refl)|]; lia.
+    - rewrite step_done_sem. destruct tok; lia.
+    - by rewrite step_metrics_sem.
   Qed.
 
   (* tokens handed out and not yet returned, read off the trace; None if someone returns a token
@@ -400,83 +442,59 @@ Section Breaker.
     end.
 
   Theorem sem_counts_probes : forall h b n,
-    outstanding (sem b) (trace h b) = Some n -> sem (run h b) = n /\ (sem b <= cap -> n <= cap)%nat.
+    outstanding (sem b) (trace h b) = Some n ->
+    sem (run h b) = n /\ ((sem b <= cap)%nat -> (n <= cap)%nat).
   Proof.
-    intros h b n Ho. split; [|intros Hb].
-    2: { assert (sem (run h b) = n) as <-; [|by apply sem_bounded].
-         revert b n Ho Hb. induction h as [|[t e] h IH]; intros b n Ho Hb; simpl in *; [congruence|].
-         destruct (step t e b) as [b' o] eqn:Hst. simpl in *.
-         assert (Hb' : (sem b' <= cap)%nat).
-         { pose proof (sem_bounded [(t, e)] b Hb) as H. simpl in H. by rewrite Hst in H. }
-         assert (Hn : outstanding (sem b') (trace h b') = Some n); [|by apply IH].
-         destruct e as [|o0 tok|]; simpl in Hst.
-         - destruct (try_acquire t b) as [b1 [al ac]] eqn:Ht. inversion Hst; subst b' o.
-           assert (Hs : sem b1 = if ac then S (sem b) else sem b).
-           { revert Ht. unfold Model.try_acquire. destruct (st b).
-             - intros [= <- <- <-]. done.
-             - destruct (t <? openUntil b); [intros [= <- <- <-]; done|].
-               destruct (transition_cases HalfOpen t b) as [[_ ->]|(_ & _ & Hsem & _)].
-               + destruct (sem_try_facts b) as (_ & _ & _ & [(Hx & ? & Hy)|(Hx & _ & Hy)]);
-                   destruct (sem_try cap b) as [b2 [al2 ac2]]; simpl in *; intros [= <- <- <-]; inversion Hx; subst; congruence.
-               + destruct (sem_try_facts (transition HalfOpen t b)) as (_ & _ & _ & [(Hx & ? & Hy)|(Hx & _ & Hy)]);
-                   destruct (sem_try cap (transition HalfOpen t b)) as [b2 [al2 ac2]]; simpl in *; intros [= <- <- <-]; inversion Hx; subst; congruence.
-             - destruct (sem_try_facts b) as (_ & _ & _ & [(Hx & ? & Hy)|(Hx & _ & Hy)]);
-                 destruct (sem_try cap b) as [b2 [al2 ac2]]; simpl in *; intros [= <- <- <-]; inversion Hx; subst; congruence. }
-           rewrite Hs. destruct ac; done.
-         - inversion Hst; subst b' o.
-           assert (Hrec : forall ok, sem (record t ok b) = sem b).
-           { intros ok. unfold Model.record. destruct (add bn num t ok (win b)) as [w [s f]]. simpl. cbv zeta.
-             destruct (s + f <? minReq); [done|]. destruct (reached f (s + f)).
-             - match goal with |- context [transition Open t ?x] =>
-                 destruct (transition_cases Open t x) as [[_ ->]|(_ & _ & -> & _)] end; done.
-             - simpl. destruct (st b); try done.
-               match goal with |- context [transition Closed t ?x] =>
-                 destruct (transition_cases Closed t x) as [[_ ->]|(_ & _ & -> & _)] end; done. }
-           destruct tok.
-           + destruct (sem b) as [|m] eqn:Hsb; [done|].
-             destruct o0; simpl; rewrite ?Hrec, ?Hsb; done.
-           + destruct o0; simpl; rewrite ?Hrec; done.
-         - destruct (snapshot bn num t (win b)) as [w [s f]]. inversion Hst; subst. done. }
-    revert b n Ho. induction h as [|[t e] h IH]; intros b n Ho; simpl in *; [congruence|].
-    destruct (step t e b) as [b' o] eqn:Hst. simpl in *.
-    assert (Hn : outstanding (sem b') (trace h b') = Some n); [|by apply IH].
-    destruct e as [|o0 tok|]; simpl in Hst.
-    - destruct (try_acquire t b) as [b1 [al ac]] eqn:Ht. inversion Hst; subst b' o.
-      assert (Hs : sem b1 = if ac then S (sem b) else sem b).
-      { revert Ht. unfold Model.try_acquire. destruct (st b).
-        - intros [= <- <- <-]. done.
-        - destruct (t <? openUntil b); [intros [= <- <- <-]; done|].
-          destruct (transition_cases HalfOpen t b) as [[_ ->]|(_ & _ & Hsem & _)].
-          + destruct (sem_try_facts b) as (_ & _ & _ & [(Hx & ? & Hy)|(Hx & _ & Hy)]);
-              destruct (sem_try cap b) as [b2 [al2 ac2]]; simpl in *; intros [= <- <- <-]; inversion Hx; subst; congruence.
-          + destruct (sem_try_facts (transition HalfOpen t b)) as (_ & _ & _ & [(Hx & ? & Hy)|(Hx & _ & Hy)]);
-              destruct (sem_try cap (transition HalfOpen t b)) as [b2 [al2 ac2]]; simpl in *; intros [= <- <- <-]; inversion Hx; subst; congruence.
-        - destruct (sem_try_facts b) as (_ & _ & _ & [(Hx & ? & Hy)|(Hx & _ & Hy)]);
-            destruct (sem_try cap b) as [b2 [al2 ac2]]; simpl in *; intros [= <- <- <-]; inversion Hx; subst; congruence. }
-      rewrite Hs. destruct ac; done.
-    - inversion Hst; subst b' o.
-      assert (Hrec : forall ok, sem (record t ok b) = sem b).
-      { intros ok. unfold Model.record. destruct (add bn num t ok (win b)) as [w [s f]]. simpl. cbv zeta.
-        destruct (s + f <? minReq); [done|]. destruct (reached f (s + f)).
-        - match goal with |- context [transition Open t ?x] =>
-            destruct (transition_cases Open t x) as [[_ ->]|(_ & _ & -> & _)] end; done.
-        - simpl. destruct (st b); try done.
-          match goal with |- context [transition Closed t ?x] =>
-            destruct (transition_cases Closed t x) as [[_ ->]|(_ & _ & -> & _)] end; done. }
-      destruct tok.
-      + destruct (sem b) as [|m] eqn:Hsb; [done|].
-        destruct o0; simpl; rewrite ?Hrec, ?Hsb; done.
-      + destruct o0; simpl; rewrite ?Hrec; done.
-    - destruct (snapshot bn num t (win b)) as [w [s f]]. inversion Hst; subst. done.
+    clear Hbn Hnum.
+    intros h b n Ho.
+    assert (Heq : sem (run h b) = n).
+    { revert b n Ho. induction h as [|[t e] h IH]; intros b n Ho; simpl in *; [congruence|].
+      destruct (step t e b) as [b' o] eqn:Hst. simpl in *. apply IH.
+      destruct e as [|o0 tok|].
+      - rewrite step_start in Hst. inversion Hst; subst b' o. clear Hst.
+        destruct (try_acquire_sem t b) as [-> _].
+        destruct (snd (snd (try_acquire t b))); done.
+      - pose proof (step_done_sem t o0 tok b) as Hs. rewrite Hst in Hs. simpl in Hs. rewrite Hs.
+        destruct tok; [|done]. destruct (sem b); [done|]. done.
+      - pose proof (step_metrics_sem t b) as Hs. rewrite Hst in Hs. simpl in Hs. by rewrite Hs. }
+    split; [done|]. intros Hb. rewrite <-Heq. by apply sem_bounded.
   Qed.
 
   (* a call admitted without a token was admitted by a closed breaker *)
   Theorem admitted_without_token_only_when_closed now b :
     snd (try_acquire now b) = (true, false) -> st b = Closed.
   Proof.
+    clear Hbn Hnum.
     unfold Model.try_acquire. destruct (st b); [done| |].
     - destruct (now <? openUntil b); [done|].
       destruct (sem_try_facts (transition HalfOpen now b)) as (_ & _ & _ & [(-> & _)|(-> & _)]); done.
     - destruct (sem_try_facts b) as (_ & _ & _ & [(-> & _)|(-> & _)]); done.
   Qed.
 End Breaker.
+
+(* ---------------------------------------------------------------- the hypotheses are satisfiable *)
+(* window 40ns in 4 buckets, minRequests 4, rate 1/2, open timeout 50, one half-open probe:
+   two failures out of four trip it at 1003; calls are rejected until 1053; the probe admitted at 1053
+   and three more successes close it. *)
+Definition example_history : list (Z * event) :=
+  [(1000, EStart); (1000, EDone OK false); (1001, EStart); (1001, EDone Fail false);
+   (1002, EStart); (1002, EDone OK false); (1003, EStart); (1003, EDone Fail false);
+   (1004, EStart); (1052, EStart); (1053, EStart); (1053, EStart); (1054, EDone OK true);
+   (1054, EStart); (1055, EDone OK true); (1055, EStart); (1056, EDone OK true);
+   (1056, EStart); (1057, EDone OK true); (1058, EStart)].
+
+Example example_history_mono : mono 1000 example_history.
+Proof. simpl. lia. Qed.
+
+Example example_history_walk :
+  let r := run 10 4 4 50 1 (reached_q 1 2) in
+  let b0 := new_breaker 4 1000 in
+  st (r (firstn 8 example_history) b0) = Open /\
+  openUntil (r (firstn 8 example_history) b0) = 1053 /\
+  st (r (firstn 10 example_history) b0) = Open /\
+  st (r (firstn 11 example_history) b0) = HalfOpen /\
+  sem (r (firstn 12 example_history) b0) = 1%nat /\
+  st (r (firstn 19 example_history) b0) = Closed /\
+  totals (win (r (firstn 19 example_history) b0)) = (0, 0) /\
+  outstanding 0 (trace 10 4 4 50 1 (reached_q 1 2) example_history b0) = Some 0%nat.
+Proof. vm_compute. repeat split; reflexivity. Qed.
